@@ -251,9 +251,11 @@ REG['C07'] = {
     'technique': 'Kani on the weekday formula through the f64 cast (every day number) + Verus lemmas for continuity + exhaustive execution of all three pillar routes over every date',
     'level_text': 'Deductive part: JulianDay::get_week == (day number + 1) mod 7 for every day number in range (Kani, f64 cast path); +1 per civil day incl. the 1582 cut-over from C01 lemmas. Leaf part (exhaustive execution, every civil date 0001..9999): day pillar == (day number + 49) mod 60 by the lunar-date route, the sexagenary-day view and the civil date; weekday by the civil and lunar routes.',
     'level_note': 'LunarDay::get_sixty_cycle goes through format!/from_name (out of Kani reach, DESIGN 2.3): Kani proves the indices fed to the lookup (recording stubs), the lookup itself is the pillar-name table fact of C19, and the composite is executed for every date; known findings: reform-year windows (consequence of C03) and 0001-01-01..05 (year-0 term)',
-    'functions': ['JulianDay::get_week', 'SolarDay::get_week', 'LunarDay::get_sixty_cycle (arguments of the name lookup)', 'SixtyCycleDay::from_solar_day (day pillar carried: c08_k_from_solar_day_*)', 'LunarDay::get_week (leaf)', 'name lookup SixtyCycle::from_name (table fact, C19)'],
+    'functions': ['JulianDay::get_week', 'SolarDay::get_week', 'LunarDay::get_sixty_cycle (arguments of the name lookup)', 'SixtyCycleDay::from_solar_day (day pillar carried: c08_k_from_solar_day_*)', 'LunarDay::get_week', 'name lookup SixtyCycle::from_name (table fact, C19)'],
     'K': [
         dict(id='c07_k_week', sliced=True, quick='all', fn='JulianDay::get_week', clause='index == (N + 1) mod 7 for every integer day number N of 0001-01-01..9999-12-31'),
+        dict(id='c07_k_solar_day_week', fn='SolarDay::get_week', clause='== (day number + 1) mod 7 for every valid civil date (through the proved contract of JulianDay::from_ymd_hms)'),
+        dict(id='c07_k_lunar_day_week', fn='LunarDay::get_week', clause='the weekday of its civil date (callees recorded)'),
         dict(id='c07_k_lunar_day_pillar_args', fn='LunarDay::get_sixty_cycle', clause='the stem and branch indices fed to the name lookup are first day number + day - 12 (== day number - 11, i.e. pillar (day number + 49) mod 60); real body, constructors replaced by recording stubs, name lookup decomposed (C19 pillar_name)'),
     ],
     'V': [
@@ -406,6 +408,8 @@ REG['C17'] = {
           dict(id='c17_k_twelve_star', fn='SixtyCycleDay::get_twelve_star', clause='Azure Dragon at the branch fixed by the month branch, advancing with the day branch; all 60 x 60 pillar pairs'),
           dict(id='c17_k_year_nine_star', fn='SixtyCycleYear::get_nine_star / LunarYear::get_nine_star', clause='descending-year rule from 1864 = One White, every year -1..9999 (f64 floor path)'),
           dict(id='c17_k_month_nine_star', fn='SixtyCycleMonth::get_nine_star', clause='branch-group rule: first star 8/5/2 by year branch mod 3, descending per month; every (year, month pillar)'),
+          dict(id='c17_k_lunar_hour_twelve_star', fn='LunarHour::get_twelve_star', clause='hour spirits on the lunar-hour view: day branch of the INSTANT view (rolled at 23:00), not of the lunar day; hour branch of this view; all 60 x 60 x 60 pillar triples'),
+          dict(id='c17_k_lunar_hour_nine_star', fn='LunarHour::get_nine_star', clause='hour nine star on the lunar-hour view: start 8/5/2 by day branch mod 3 descending, mirrored and ascending between the solstice days (arbitrary solstice dates), advancing with floor((hour+1)/2) mod 12'),
           dict(id='c17_k_hour_twelve_star', thorough_only=True, fn='SixtyCycleHour::get_twelve_star', clause='hour spirits start at the branch fixed by the day branch; all 60 x 60 pairs')],
     'level': 'other',
     'design_ref': '5/C17',
